@@ -360,3 +360,127 @@ func ruleSForkStrict(c *Ctx) {
 	}
 	c.Check(found && guarded, "S-forkstrict", "thread.apply", fn.Pos(), "VerifyStrictEncoding is added under EnableSighashForkID", fmt.Sprintf("thread.apply no longer turns strict signature encoding on when SIGHASH_FORKID is enabled (addFlag found: %v, under the FORKID test: %v): undefined hash types and malformed keys are let through in the FORKID era", found, guarded))
 }
+
+// S-p2sh (C05, P2SH policy): the pay-to-script-hash hand-over in thread.Step. Under BIP16 before genesis, when
+// the first script ends the data stack is saved; when the second ends the final-stack check runs (not as the
+// last script), the top item of the saved stack is parsed as the redeem script and appended to the scripts,
+// and the data stack becomes the saved stack without that item. Read from the dominating conditions and the
+// operands of the five calls; no go-bt code runs.
+func ruleSP2SH(c *Ctx) {
+	fn := c.P.Func("bscript/interpreter", "*thread", "Step")
+	if fn == nil {
+		c.Undecided("S-p2sh", "thread.Step", token.NoPos, "not found")
+		return
+	}
+	v := viewOf(fn)
+	env := v.Env
+	condsOf := func(b *ssa.BasicBlock) (bip16, preGenesis bool, idx int64) {
+		idx = -1
+		for _, dc := range dominatingConds(b) {
+			t := atomName(env.Term(dc.cond))
+			switch {
+			case strings.HasSuffix(t, ".bip16") && dc.truth:
+				bip16 = true
+			case strings.HasSuffix(t, ".afterGenesis") && !dc.truth:
+				preGenesis = true
+			default:
+				if bo, ok := dc.cond.(*ssa.BinOp); ok && bo.Op == token.EQL && dc.truth && strings.HasSuffix(atomName(env.Term(bo.X)), ".scriptIdx") {
+					if k, isK := constInt(bo.Y); isK {
+						idx = k.Int64()
+					}
+				}
+			}
+		}
+		return
+	}
+	var problems []string
+	found := map[string]bool{}
+	var checkBlock, parseBlock *ssa.BasicBlock
+	for _, ins := range v.Instrs {
+		switch x := ins.(type) {
+		case *ssa.Store:
+			fa, ok := x.Addr.(*ssa.FieldAddr)
+			if !ok || namedOf(fa.X.Type()) != "thread" {
+				continue
+			}
+			switch fieldName(fa.X.Type(), fa.Field) {
+			case "savedFirstStack":
+				found["save"] = true
+				call, isCall := x.Val.(*ssa.Call)
+				b16, pre, idx := condsOf(x.Block())
+				if !isCall || call.Call.StaticCallee() == nil || call.Call.StaticCallee().Name() != "GetStack" {
+					problems = append(problems, "the saved stack is not the data stack (GetStack)")
+				}
+				if !b16 || !pre || idx != 1 {
+					problems = append(problems, fmt.Sprintf("the data stack is saved under bip16=%v pre-genesis=%v scriptIdx==%d (rule: BIP16, before genesis, after the first script)", b16, pre, idx))
+				}
+			}
+		case *ssa.Call:
+			sc := x.Call.StaticCallee()
+			if sc == nil {
+				if x.Call.IsInvoke() && x.Call.Method.Name() == "Parse" {
+					found["parse"] = true
+					parseBlock = x.Block()
+					b16, pre, idx := condsOf(x.Block())
+					if !b16 || !pre || idx != 2 {
+						problems = append(problems, fmt.Sprintf("the redeem script is parsed under bip16=%v pre-genesis=%v scriptIdx==%d", b16, pre, idx))
+					}
+					a := atomName(env.Term(x.Call.Args[0]))
+					if !strings.Contains(a, "NewFromBytes") || !strings.Contains(a, "savedFirstStack") || !strings.Contains(a, "- 1") {
+						problems = append(problems, "what is parsed as the redeem script is not the top item of the saved stack: "+shorten(a, 90))
+					}
+				}
+				continue
+			}
+			switch sc.Name() {
+			case "CheckErrorCondition":
+				b16, pre, idx := condsOf(x.Block())
+				if b16 && pre && idx == 2 {
+					found["check"] = true
+					checkBlock = x.Block()
+					if k, isK := x.Call.Args[1].(*ssa.Const); !isK || k.Value == nil || constant.BoolVal(k.Value) {
+						problems = append(problems, "the stack check before the redeem script runs as if it were the final script")
+					}
+				}
+			case "SetStack":
+				found["set"] = true
+				b16, pre, idx := condsOf(x.Block())
+				if !b16 || !pre || idx != 2 {
+					problems = append(problems, fmt.Sprintf("the data stack is replaced under bip16=%v pre-genesis=%v scriptIdx==%d", b16, pre, idx))
+				}
+				sl, isSl := x.Call.Args[1].(*ssa.Slice)
+				okArg := false
+				if isSl && sl.Low == nil && sl.High != nil && strings.HasSuffix(atomName(env.Term(sl.X)), ".savedFirstStack") {
+					h := atomName(env.Term(sl.High))
+					okArg = strings.Contains(h, "len(") && strings.Contains(h, "savedFirstStack") && strings.Contains(h, "- 1")
+				}
+				if !okArg {
+					problems = append(problems, "the data stack for the redeem script is not the saved stack without its top item")
+				}
+			}
+		}
+	}
+	// the parsed script is appended to the scripts
+	for _, ins := range v.Instrs {
+		if st, ok := ins.(*ssa.Store); ok {
+			if fa, ok := st.Addr.(*ssa.FieldAddr); ok && namedOf(fa.X.Type()) == "thread" && fieldName(fa.X.Type(), fa.Field) == "scripts" {
+				if call, ok := st.Val.(*ssa.Call); ok {
+					if bi, ok := call.Call.Value.(*ssa.Builtin); ok && bi.Name() == "append" {
+						found["append"] = true
+					}
+				}
+			}
+		}
+	}
+	for _, k := range []string{"save", "check", "parse", "append", "set"} {
+		if !found[k] {
+			problems = append(problems, "missing step: "+map[string]string{"save": "saving the data stack after the first script", "check": "the non-final stack check after the second script", "parse": "parsing the redeem script", "append": "appending the redeem script to the scripts", "set": "handing the saved stack (without the script) to the redeem script"}[k])
+		}
+	}
+	if checkBlock != nil && parseBlock != nil && !checkBlock.Dominates(parseBlock) {
+		problems = append(problems, "the redeem script is parsed without the stack check having passed")
+	}
+	sort.Strings(problems)
+	c.Check(len(problems) == 0, "S-p2sh", "thread.Step", fn.Pos(), "BIP16 hand-over: save after script 1; after script 2 check (non-final), parse the saved top item, append it, continue on the saved stack without it",
+		"thread.Step: "+strings.Join(problems, "; "))
+}
